@@ -161,14 +161,16 @@ Definition v_expand (v : view) (axes spacing : list Z) : view :=
          (fun i => match expand_idx i (zlen (vshape v)) axes spacing with Some j => vget v j | None => 0 end).
 
 (* right-aligned broadcasting of two shapes (ufunc multiply / add) *)
+Definition bc (x y : Z) : option Z :=
+  if x =? y then Some x else if x =? 1 then Some y else if y =? 1 then Some x else None.
 Fixpoint bshape_rev (a b : list Z) : option (list Z) :=
   match a, b with
   | [], _ => Some b
   | _, [] => Some a
   | x :: a', y :: b' =>
-      match bshape_rev a' b' with
-      | None => None
-      | Some r => if x =? y then Some (x :: r) else if x =? 1 then Some (y :: r) else if y =? 1 then Some (x :: r) else None
+      match bshape_rev a' b', bc x y with
+      | Some r, Some z => Some (z :: r)
+      | _, _ => None
       end
   end.
 Definition bshape (a b : list Z) : option (list Z) := option_map (@rev Z) (bshape_rev (rev a) (rev b)).
